@@ -16,7 +16,7 @@ Theorem create_webentity_Rcore : forall ps s a, Forall wf_lru ps -> Rcore s a ->
 Proof.
   intros ps s a Hps HR. unfold create_webentity, s_create.
   pose proof (add_prefixes_Rcore ps false s a Hps HR) as H. cbv zeta in H.
-  change (a_last (upd_known (fun k => fold_left (fun k p => know p k) ps k) a)) with (a_last a).
+  change (a_last (upd_known (fun k0 => fold_left (fun k p => know p k) ps k0) a)) with (a_last a).
   destruct (add_prefixes ps false s) as [s1 [| |w' valid']].
   - destruct H as (Hn & _ & HR1).
     destruct (existsb (fun p => amem p (a_pref a)) ps) eqn:E.
